@@ -248,24 +248,30 @@ func (c *Channel) Invoke(ctx context.Context, method string, req, resp interface
 	go func() {
 		defer func() {
 			sts.Finish()
+			verifAt("unary.server.before-close", ctx)
 			close(ch)
 		}()
 		ctx := grpc.NewContextWithServerTransportStream(makeServerContext(ctx), &sts)
+		verifAt("unary.server.start", ctx)
 		v, err := md.Handler(handler, ctx, codec, c.unaryInterceptor)
 		if h := sts.GetHeaders(); len(h) > 0 {
+			verifAt("unary.server.before-headers", ctx)
 			_ = writeMessage(ctx, nil, ch, frame{headers: h})
 		}
 		if err == nil {
 			if isNil(v) {
 				err = status.Errorf(codes.Internal, "handler returned neither error nor response message")
 			} else {
+				verifAt("unary.server.before-data", ctx)
 				_ = writeMessage(ctx, nil, ch, frame{data: v})
 			}
 		}
 		if t := sts.GetTrailers(); len(t) > 0 {
+			verifAt("unary.server.before-trailers", ctx)
 			_ = writeMessage(ctx, nil, ch, frame{trailers: t})
 		}
 		if err != nil {
+			verifAt("unary.server.before-error", ctx)
 			_ = writeMessage(ctx, nil, ch, frame{err: err})
 		}
 	}()
@@ -274,6 +280,7 @@ func (c *Channel) Invoke(ctx context.Context, method string, req, resp interface
 	for {
 		select {
 		case r, ok := <-ch:
+			verifAt("unary.client.frame", ctx)
 			if !ok {
 				// no more messages
 				if !gotResponse {
@@ -517,11 +524,13 @@ func (s *inProcessServerStream) sendHeadersLocked() error {
 }
 
 func (s *inProcessServerStream) finish(err error) {
+	verifAt("stream.server.finish", s.ctx)
 	s.onDone()
 
 	s.mu.Lock()
 	defer func() {
 		s.state = streamStateClosed
+		verifAt("stream.server.before-close", s.ctx)
 		close(s.responses)
 		s.mu.Unlock()
 	}()
@@ -772,6 +781,7 @@ func (s *inProcessClientStream) ensureNoMoreLocked(m interface{}) error {
 func readMessage(ctx context.Context, ch <-chan frame) (frame, error) {
 	select {
 	case m, ok := <-ch:
+		verifAt("read.frame", ctx)
 		if err := ctx.Err(); err != nil {
 			return frame{}, err
 		}
@@ -789,6 +799,7 @@ func writeMessage(ctx, remoteCtx context.Context, ch chan<- frame, m frame) erro
 	if remoteCtx != nil {
 		remote = remoteCtx.Done()
 	}
+	verifAt("write.frame", ctx)
 	select {
 	case ch <- m:
 	case <-ctx.Done():
